@@ -1,7 +1,9 @@
 """C04 -- malformed statements and declarations are skipped as a unit.
 
 proof:   coq/props/C04.v over coq/theories/{Upto,Skeleton}.v (+ UptoFacts, SkeletonFacts)
-tie:     (f) Base._tokensupto2 called on real tokenizer generators, all 13 modes x with/without start token,
+tie:     (t) translate/upto.py regenerates Gen/UptoGen.v (flags -> ends/endtypes/counters, bracket chains, handler ->
+             flag/start token, token type -> handler, order-state signatures); mode_of / kmode / ord_sig are lookups in it;
+         (f) Base._tokensupto2 called on real tokenizer generators, all 13 modes x with/without start token,
              against CssV.Upto.upto (extracted);
          (s) the statement skeleton: every _tokensupto2 call the parser makes while it reads a sheet / @media rule /
              rule set / declaration block is logged (harness-side wrapper, no source hook) and compared with
@@ -764,6 +766,8 @@ def replay(ctx, path):
 
 TRUSTED = [
     "Coq 8.16.1 kernel and VM; no native_compute",
+    "translate/upto.py (AST shape checks on util._tokensupto2, the three dispatching _parse calls and their handlers; "
+    "emits Gen/UptoGen.v; fail-closed)",
     "extraction (ExtrOcamlBasic only) + ocamlfind ocamlopt, ocaml/upto_driver.ml",
     "correspondence harness harness/props/c04.py: the call log wraps Base._tokensupto2 in the harness process "
     "(caller frame names identify the handler); generators; comparison of run lengths (a run is a prefix of the "
@@ -779,7 +783,8 @@ ASSUME = [
     "junk is balanced as the counters of _tokensupto2 see it: brackets are recognised by token VALUE of non-IDENT "
     "tokens, a FUNCTION token opens a parenthesis",
     "unknown_atrule_preserved is proved for bodies of `usane` tokens (brackets are CHAR tokens, no EOF / INVALID token)",
-    "the expected 0..3 order state and the namespace registry are outside the model: misplaced well-formed statements "
-    "(@charset/@import/@namespace/@variables out of order, at-rules inside @media, statements inside declaration "
-    "blocks) are covered by the end-to-end oracle only",
+    "the 0..3 order state is modelled with the rule objects' well-formedness as a parameter (wf) of "
+    "junk_statement_skipped_order; the namespace registry is outside the model: misplaced well-formed statements "
+    "(@namespace redeclarations, at-rules inside @media, statements inside declaration blocks) are covered by the "
+    "end-to-end oracle only",
 ]
